@@ -168,8 +168,7 @@ class DI:
 
 			curried_args.append(self.resolve(anno))
 
-		if not found:
-			self.__assert_invoke(factory, annos, curried_args, *remain_args)
+		self.__assert_invoke(factory, annos, curried_args, *remain_args)
 
 		return factory(*curried_args, *remain_args)
 
